@@ -553,6 +553,69 @@ def reused_delete_object(col, rng):
         col.violation('C12/wildcard-over-mixed-kinds', "delete([dict, obj, dict], '*.x'): %r, target %s" % (got if not got.ok else 'returned', short(t)), None)
 
 
+def reused_delete_with_a_computed_segment(col):
+    """one Delete object whose final segment is computed (from the target, from the scope) deletes, at every use, the element THAT
+    evaluation names - across calls, inside a list spec, with and without ignore_missing"""
+    from glom import S
+    mk_specs = [("Delete(T['d'][T['k']])", lambda **kw: Delete(T['d'][T['k']], **kw)), ("Delete(Path('d', T[T['k']]))", lambda **kw: Delete(Path('d', T[T['k']]), **kw)),
+                ("Delete(T['d'][S['k']]) after S(k=T['k'])", lambda **kw: (S(k=T['k']), Delete(T['d'][S['k']], **kw))),
+                ("Delete(T['lst'][T['i']])", lambda **kw: Delete(T['lst'][T['i']], **kw))]
+    rows = lambda: [{'k': 'a', 'i': 0, 'd': {'a': 1, 'b': 2, 'c': 3}, 'lst': [10, 20, 30]}, {'k': 'b', 'i': 2, 'd': {'a': 1, 'b': 2, 'c': 3}, 'lst': [10, 20, 30]},
+                    {'k': 'c', 'i': 1, 'd': {'a': 1, 'b': 2, 'c': 3}, 'lst': [10, 20, 30]}, {'k': 'a', 'i': 0, 'd': {'a': 1, 'b': 2, 'c': 3}, 'lst': [10, 20, 30]}]
+
+    def py(row, name):
+        if 'lst' in name:
+            del row['lst'][row['i']]
+        else:
+            del row['d'][row['k']]
+    for name, mk in mk_specs:
+        for im in (False, True):
+            for how in ('successive calls', 'inside a list spec'):
+                spec = mk(ignore_missing=True) if im else mk()
+                t, w = rows(), rows()
+                for r in w:
+                    py(r, name)
+                if how == 'successive calls':
+                    outs = [call(G, r, spec) for r in t]
+                    ok = all(o.ok for o in outs)
+                else:
+                    outs = call(G, t, [spec])
+                    ok = outs.ok
+                col.case(('reused-delete-computed-segment', name, im, how), True)
+                col.count('deletions_attempted', len(t))
+                col.count('successful_deletions', len(t))
+                if not ok or t != w:
+                    col.violation('C12/reused-delete-object-keeps-an-evaluated-segment', 'one %s object%s, %s on 4 rows naming a, b, c, a / 0, 2, 1, 0: %s ; rows now %s, '
+                                  'plain del gives %s' % (name, ' (ignore_missing)' if im else '', how, short(repr(outs), 200), short(t, 300), short(w, 300)), None)
+    # keys of any hashable kind address their element - also instances of tuple / frozenset subclasses (a namedtuple key, ...)
+    import collections
+    Pt = collections.namedtuple('Pt', 'x y')
+
+    class Pair(tuple):
+        def __new__(cls, a, b):
+            return tuple.__new__(cls, (a, b))
+
+    class Tags(frozenset):
+        def __new__(cls, *items):
+            return frozenset.__new__(cls, items)
+    for key in (Pt(1, 2), Pair('a', 'b'), Tags('u', 'v'), (1, 2), frozenset(['u'])):
+        for desc, mk in (('T[key]', lambda: Delete(T['m'][key])), ('Path(.., key)', lambda: Delete(Path('m', key))), ('key names a parent', lambda: Delete(Path('m2', key, 'leaf'))),
+                         ('delete() with a Path', None)):
+            t = {'m': {key: 1, 'other': 2}, 'm2': {key: {'leaf': 1, 'stay': 2}}}
+            w = {'m': {key: 1, 'other': 2}, 'm2': {key: {'leaf': 1, 'stay': 2}}}
+            if desc == 'key names a parent':
+                del w['m2'][key]['leaf']
+            else:
+                del w['m'][key]
+            got = call(G, t, mk()) if mk else call(delete, t, Path('m', key))
+            col.case(('subclass-keys', type(key).__name__, desc), True)
+            col.count('deletions_attempted')
+            col.count('successful_deletions')
+            if not got.ok or t != w:
+                col.violation('C12/key-of-a-tuple-or-frozenset-subclass-not-addressed', '%s with the key %r (%s): %r ; target now %r, plain del gives %r'
+                              % (desc, key, type(key).__name__, got if not got.ok else 'returned', t, w), None)
+
+
 class _Vault:
     """children reachable only through the get handler a Glommer registers for it (no attributes, no __getitem__)"""
     __slots__ = ('_cells',)
@@ -616,5 +679,6 @@ def run(ctx):
         unregistered_container_classes(col)
         delete_runs_in_the_context_of_the_call(col)
         reused_delete_object(col, rng)
+        reused_delete_with_a_computed_segment(col)
     for i in range(ctx.n(350, 3500)):
         one_target(col, rng)
